@@ -15,6 +15,7 @@ func init() {
 	verifRegister("VerifC14_KCompose", VerifC14_KCompose)
 	verifRegister("VerifC14_KMalformed", VerifC14_KMalformed)
 	verifRegister("VerifC14_KKeys", VerifC14_KKeys)
+	verifRegister("VerifC14_KWhen", VerifC14_KWhen)
 }
 
 var c14Env *lisp.LEnv
@@ -43,6 +44,7 @@ func VerifC14_KIn_Setup()        { c14Setup() }
 func VerifC14_KCompose_Setup()   { c14Setup() }
 func VerifC14_KMalformed_Setup() { c14Setup() }
 func VerifC14_KKeys_Setup()      { c14Setup() }
+func VerifC14_KWhen_Setup()      { c14Setup() }
 
 func c14Load(env *lisp.LEnv, src string) *lisp.LVal { return env.LoadString("c14", src) }
 
@@ -411,4 +413,62 @@ func VerifC14_KKeys() {
 		vAssert(got != "ok", "key constraint rejects (maps decoded from JSON validate exactly like maps built in lisp)")
 		vCover("reject")
 	}
+}
+
+// s:when is the composition its documentation states: "when the value at key satisfies constraint,
+// the value at matchKey must satisfy all additional constraints; if the condition is not met the
+// constraint passes".  The oracle is compositional: the guard alone is validated against the value
+// found at the guard key (() when the key is absent), the trailing constraints alone against the
+// value at the match key, and the verdict of the s:when schema must be the combination.  Guard and
+// match values range over absent, (), booleans, strings and a symbolic integer; keys are given as
+// strings or symbols.
+func VerifC14_KWhen() {
+	env := c14Setup()
+	g, x := vndInt("g"), vndInt("x")
+	env.PutGlobal(lisp.Symbol("g"), lisp.Int(g))
+	env.PutGlobal(lisp.Symbol("x"), lisp.Int(x))
+	guards := []string{"(s:in \"yes\")", "(s:is-falsy)", "(s:is-truthy)", "(s:not (s:in \"yes\"))", "(s:gt 5)", "(s:is-true)", "(s:is-false)", "(s:not (s:is-truthy))", "(s:lte 5)"}
+	checks := []string{"(s:gt 100)", "(s:in \"p\" \"q\")", "(s:not (s:gt 100))", "(s:gt 100) (s:lt 200)", "(s:is-truthy)"}
+	vals := []string{"", "()", "\"yes\"", "\"no\"", "g", "true", "false", "\"\"", "x", "\"p\""} // "" = key absent
+	gi := vConcInt(vndChoice("guard", len(guards)))
+	ci := vConcInt(vndChoice("check", len(checks)))
+	gv := vConcInt(vndChoice("gval", 8))
+	tv := vConcInt(vndChoice("tval", 4))
+	tvals := []int{0, 8, 9, 1}
+	symkeys := vndBool("symkeys")
+	key := func(k string) string {
+		if symkeys {
+			return "'" + k
+		}
+		return "\"" + k + "\""
+	}
+	m := "(sorted-map"
+	gval, tval := "()", "()"
+	if vals[gv] != "" {
+		m += " " + key("a") + " " + vals[gv]
+		gval = vals[gv]
+	}
+	if vals[tvals[tv]] != "" {
+		m += " " + key("b") + " " + vals[tvals[tv]]
+		tval = vals[tvals[tv]]
+	}
+	m += " " + key("other") + " 1)"
+	r := c14Load(env, "(set 'w (s:make-validator \"w\" s:sorted-map (s:when \"a\" "+guards[gi]+" \"b\" "+checks[ci]+")))")
+	vAssert(r.Type != lisp.LError, "the s:when schema builds: "+c14Verdict(r))
+	r = c14Load(env, "(set 'gonly (s:make-validator \"g\" \"any\" "+guards[gi]+")) (set 'conly (s:make-validator \"c\" \"any\" "+checks[ci]+"))")
+	vAssert(r.Type != lisp.LError, "the component schemas build: "+c14Verdict(r))
+	guardV := c14Verdict(c14Load(env, "(s:validate gonly "+gval+")"))
+	checkV := c14Verdict(c14Load(env, "(s:validate conly "+tval+")"))
+	got := c14Verdict(c14Load(env, "(s:validate w "+m+")"))
+	vObserve("schema", guards[gi]+" / "+checks[ci])
+	vObserve("map", m)
+	want := "ok"
+	if guardV == "ok" {
+		want = checkV
+		vCover("guard-met")
+	} else {
+		vCover("guard-not-met")
+	}
+	vAssert(got == want, "s:when = (guard on the value at key) implies (constraints on the value at matchKey): got "+got+" want "+want+" (guard "+guardV+", constraints "+checkV+")")
+	vCover("end")
 }
